@@ -16,6 +16,7 @@ from mc.engine import ok, bad, unspecified
 from mc.common import call, Raised, DimArray, py, same_scalar, same_list
 
 ID = "C09"
+VARIANT_SWEEP = True      # thorough tier: every case on every history variant of its array (see mc/domains.py VSHIFT)
 TITLE = "cumulative / diff / arg-extremum bookkeeping"
 RULE = ("product of (numeric arrays 1-4D, operated axis of size 1-5 at every position, numeric sorted / unsorted and str labels, "
         "int and float data, ties and NaNs for arg-extrema) x {cumsum, cumprod (default / name / position), diff x n in {1,2,3} x "
